@@ -173,6 +173,25 @@ CHECKS = {
         "Pairs within 1e-12 (relative) of the cutoff are not judged.",
         "DESIGN.md 6/C20",
     ),
+    "C12": (
+        "metamorphic property-based testing: all 48 signed axis permutations enumerated plus Hypothesis-drawn orthogonal "
+        "matrices and translations, judged with independently built representation matrices (R6)",
+        "Generated systems moved rigidly (centres, points, charges, moment origin, density matrix): function values, "
+        "gradients, arbitrary-order derivatives and moments (signed permutations), S/T/V/ERI, momentum (vector), angular "
+        "momentum (pseudo-vector with the t x p shift), dipole/second moments (tensors), all density-type fields as "
+        "invariants / vectors / rank-2 tensors.",
+        "Trusts vf/ref R6 + R4 representation matrices; tolerances 1e-9 (ERI 2e-6) of natural magnitudes.",
+        "DESIGN.md 6/C12",
+    ),
+    "C16": (
+        "property-based differential testing of the two halves of the library against each other through a convergent "
+        "trapezoid quadrature with per-case derived grid",
+        "Generated bases of every type pattern (exponents 0.3-3) integrated on grids of up to ~1.4M points: products of "
+        "evaluated functions vs overlap and moment matrices, gradients vs kinetic matrix, density vs tr(gamma S), t+ vs "
+        "tr(gamma T), at 1e-9.",
+        "Quadrature converges geometrically for polynomial x Gaussian integrands; only the exponent window 0.3-3 is covered.",
+        "DESIGN.md 6/C16",
+    ),
 }
 
 NOT_YET = "check not built yet in this revision (planned, see DESIGN.md section 6)"
